@@ -67,6 +67,10 @@ func structOf(al *ssa.Alloc) *types.Struct {
 func runC33(c *Ctx) {
 	w := c.W
 	c33Extras(c)
+	c33Extras3(c)
+	for _, pk := range []string{"z/x509", "z/x509/pkix", "z/json", "z/x509/ct", "z/ct"} {
+		c.DeadObligations(c.W.FuncsOfPkg(pk), "package "+pk[2:])
+	}
 	var methods []*ssa.Function
 	for _, f := range c33Files {
 		for _, fn := range w.FuncsInFile(f) {
